@@ -600,6 +600,7 @@ var builtinSpec = map[string]SpecSig{
 	"tdiv": {Args: []string{sInt, sInt}, Res: sInt}, "tmod": {Args: []string{sInt, sInt}, Res: sInt},
 	"atoiOk": {Args: []string{sStr}, Res: sBool}, "atoiVal": {Args: []string{sStr}, Res: sInt}, "itoa": {Args: []string{sInt}, Res: sStr},
 	"hasSuffix": {Args: []string{sStr, sStr}, Res: sBool}, "hasPrefix": {Args: []string{sStr, sStr}, Res: sBool},
+	"gvGroup": {Args: []string{sStr}, Res: sStr}, "gvVersion": {Args: []string{sStr}, Res: sStr}, "gvOk": {Args: []string{sStr}, Res: sBool},
 	"strlen": {Args: []string{sStr}, Res: sInt}, "strcat": {Args: []string{sStr, sStr}, Res: sStr}, "toLower": {Args: []string{sStr}, Res: sStr},
 }
 
@@ -925,6 +926,9 @@ func (fc *FnCtx) evalCall(env *Env, e *Expr) (Val, error) {
 			return Val{}, fmt.Errorf("%s: non-scalar argument", e.Name)
 		}
 		args = append(args, v.T)
+	}
+	if strings.HasPrefix(e.Name, "gv") {
+		fc.q.declareFun(e.Name, sig.Args, sig.Res) // declared on demand (not part of the prelude)
 	}
 	t := app(e.Name, args...)
 	if e.Name == "pct" {
